@@ -361,8 +361,11 @@ def check_mapped_closure(ctx, facts, clo, kind):
             "owlchess::board::Board::color")
     tree = FxBuilder(facts, stop=stop).tree(parent)
     for n_, _c, _i in walk_tree(tree):
-        if n_[0] == "call" and (n_[2] or "").endswith("iterator::Iterator::map") and len(n_[3]) == 2:
-            src_set, cl = show(unstamp(n_[3][0])), unstamp(n_[3][1])
+        is_map = n_[0] == "call" and (n_[2] or "").endswith("iterator::Iterator::map") and len(n_[3]) == 2
+        is_fold = n_[0] == "call" and (n_[2] or "").endswith("iterator::Iterator::fold") and len(n_[3]) == 3
+        if is_map or is_fold:
+            # `set.into_iter().map(|p| ..)` or `.fold(init, |acc, p| ..)`: the item is an element of `set`
+            src_set, cl = show(unstamp(n_[3][0])), unstamp(n_[3][-1])
             if cl[0] == "agg" and cl[1] == "closure" and cl[2] == clo.def_path:
                 king_ok = any(show(unstamp(x)) in ("king", "&king") for x in cl[3])
                 if not king_ok:
@@ -370,7 +373,7 @@ def check_mapped_closure(ctx, facts, clo, kind):
                 if ("%s_xray(" % kind) in src_set and "king)" in src_set:
                     return True, "closure mapped over %s_xray(.., king) & sliders: (p, king) aligned along %s lines" % (kind, kind)
                 return False, "the closure calling %s_strict is mapped over %s" % (kind, src_set[:120])
-    return False, "the closure is not mapped over an iterator in its parent"
+    return False, "the closure is not mapped or folded over an iterator in its parent"
 
 
 NO_INLINE = ("owlchess::between::is_bishop_valid", "owlchess::between::is_rook_valid")
